@@ -638,3 +638,12 @@ func SourceName(v ssa.Value) string {
 	}
 	return ""
 }
+
+// Nillable: values of the type can be nil (pointer, interface, map, slice, chan, func).
+func Nillable(t types.Type) bool {
+	switch t.Underlying().(type) {
+	case *types.Pointer, *types.Interface, *types.Map, *types.Slice, *types.Chan, *types.Signature:
+		return true
+	}
+	return false
+}
